@@ -33,6 +33,10 @@ type numTailG[T any] struct {
 type numQuotedG[T any] struct {
 	V T `"=" @Str`
 }
+// the number is captured through a negation (any token but the terminator)
+type numNegG[T any] struct {
+	V T `"=" @~"," ","`
+}
 type namedI16 int16
 type namedF32 float32
 type namedI64 int64
@@ -113,6 +117,35 @@ func numCheck[T any](res *xResult, name, kind string, bits int) {
 			got = fmt.Sprint(vq.V)
 		}
 		checkNum(res, name+" from an unquoted string", input, got, err, want, ok)
+	}
+	pn, err := participle.Build[numNegG[T]](participle.Lexer(numLexer), participle.Elide("Whitespace", "Comment"))
+	if err != nil {
+		res.violate("Build numNegG[%s]: %v", name, err)
+		return
+	}
+	for _, text := range numTexts {
+		want, ok := numOracle(kind, bits, text)
+		for _, gap := range []string{"", "  ", " /*c*/ "} {
+			input := "=" + gap + text + ","
+			res.Evaluations++
+			if !ok {
+				res.Distinct++
+			}
+			vn, err := pn.ParseString("f", input)
+			got := "<nil>"
+			if vn != nil {
+				got = fmt.Sprint(vn.V)
+			}
+			if ok {
+				checkNum(res, name+" through a negation", input, got, err, want, ok)
+			} else if err == nil {
+				res.violate("%s through a negation from %q: stored %s although strconv rejects it", name, input, got)
+			} else if perr, isPE := err.(participle.Error); !isPE {
+				res.violate("%s through a negation from %q: error %T is not a participle.Error", name, input, err)
+			} else if pos := perr.Position(); pos.Offset != 1+len(gap) {
+				res.violate("%s through a negation from %q: conversion error located at offset %d, the captured token is at %d", name, input, pos.Offset, 1+len(gap))
+			}
+		}
 	}
 	for _, text := range numTexts {
 		// a conversion error is reported as such, at the captured token, also when an optional part after it was
@@ -212,7 +245,7 @@ func checkNum(res *xResult, name, input, got string, err error, want string, ok 
 // TestVerif_C17_NumericOracle: numeric captures agree with strconv for every numeric kind.
 func TestVerif_C17_NumericOracle(t *testing.T) {
 	res := &xResult{Check: "numeric captures vs strconv", Property: "C17", Exhaustive: true,
-		Bound: fmt.Sprintf("%d texts (boundary values of every width, base prefixes, underscores, floats, junk) x {plain, '-' prefix token, '-' then elided whitespace, '-' then elided comment} x 17 field types (all int/uint/float kinds, named int16 / float32 / int64 / uint64 / float64), each as T, *T, []T filled by several captures, []T filled by one capture of three tokens, T followed by optional groups that are entered and abandoned (lookahead 3), and T filled from a quoted string through Unquote (so also from the empty text and from text with spaces)", len(numTexts)),
+		Bound: fmt.Sprintf("%d texts (boundary values of every width, base prefixes, underscores, floats, junk) x {plain, '-' prefix token, '-' then elided whitespace, '-' then elided comment} x 17 field types (all int/uint/float kinds, named int16 / float32 / int64 / uint64 / float64), each as T, *T, []T filled by several captures, []T filled by one capture of three tokens, T followed by optional groups that are entered and abandoned (lookahead 3), T captured through a negation after elided tokens, and T filled from a quoted string through Unquote (so also from the empty text and from text with spaces)", len(numTexts)),
 		Rule:  "distinct (field type, input) pairs; non-trivial = strconv rejects the text or several tokens are joined"}
 	_ = math.MaxInt8
 	_ = os.Getenv
